@@ -142,7 +142,7 @@ func c16Layout(base string, files map[string]any) error {
 
 func init() {
 	// c16: {"base": abs dir, "files": {rel: content}, "cwd": dir (abs), "main": path given to EvaluateExpr,
-	//       "src": source of the main script, "budget_ms": n}
+	//       "src": source of the main script, "budget_ms": n}   (or "fs": "mem", "files": {abs: content}, absolute "main")
 	// -> {"st": ok|err|panic|timeout, "val": dump, "opens": [[op, [bytes]]...]}
 	register("c16", func(in map[string]any) map[string]any {
 		base, _ := in["base"].(string)
@@ -154,13 +154,30 @@ func init() {
 		if b, ok := in["budget_ms"].(float64); ok {
 			budget = time.Duration(b) * time.Millisecond
 		}
-		if err := c16Layout(base, files); err != nil {
-			return map[string]any{"st": "harness-error", "msg": err.Error()}
+		var rfs *recFs16
+		if fsKind, _ := in["fs"].(string); fsKind == "mem" {
+			// in-memory tree with absolute file names (lets go.mod sit in "/"); the
+			// main path must be absolute so that the working directory plays no part
+			mem := afero.NewMemMapFs()
+			for k, v := range files {
+				s, _ := v.(string)
+				if !strings.HasPrefix(k, "/") {
+					return map[string]any{"st": "harness-error", "msg": "mem layout needs absolute names: " + k}
+				}
+				if err := afero.WriteFile(mem, k, []byte(s), 0o644); err != nil {
+					return map[string]any{"st": "harness-error", "msg": err.Error()}
+				}
+			}
+			rfs = &recFs16{Fs: mem}
+		} else {
+			if err := c16Layout(base, files); err != nil {
+				return map[string]any{"st": "harness-error", "msg": err.Error()}
+			}
+			if err := os.Chdir(cwd); err != nil {
+				return map[string]any{"st": "harness-error", "msg": err.Error()}
+			}
+			rfs = &recFs16{Fs: afero.NewOsFs()}
 		}
-		if err := os.Chdir(cwd); err != nil {
-			return map[string]any{"st": "harness-error", "msg": err.Error()}
-		}
-		rfs := &recFs16{Fs: afero.NewOsFs()}
 		ch := make(chan evalResult, 1)
 		go func() {
 			var r evalResult
